@@ -154,7 +154,7 @@ def run_rest(ctx):
         if len(c) != 1 or len(t) != 1:
             raise AnchorMissing("%s cast impls" % model)
         ctx.fn(c[0]); ctx.fn(t[0])
-        b = hir.last_expr(c[0]["body"])
+        b = strip(hir.through_lets(hir.last_expr(c[0]["body"]), hir.let_env(c[0]["body"])))          # named temporaries read through
         ok = False
         if model == "enum":
             if b["k"] == "Call" and hir.callee_name(b) == "new" and len(b["args"]) == 2:
@@ -166,14 +166,15 @@ def run_rest(ctx):
                 emp = maps.vec_macro_elems(fl.get("budget", {"k": "?"})) if "budget" in fl else None
                 ok = field_path(fl.get("sentence", {"k": "?"})) == ("self",) and emp == []
         ctx.ob("K-CAST", "%s cast_to_task = (self, empty budget)" % model, ok, "")
-        links, els = hir.if_chain(t[0]["body"])
+        # one two-way decision on budget.is_empty(), in any spelling (if / bool match / guard clause with early return)
+        tr = hir.two_results(t[0]["body"])
         ok = False
-        if len(links) == 1 and els is not None:
-            cnd = strip(links[0][0])
+        if tr is not None:
+            lets_t = hir.let_env(t[0]["body"])
+            cnd, th, el = strip(tr[0]), strip(hir.through_lets(tr[1], lets_t)), strip(hir.through_lets(tr[2], lets_t))
             bud = "1" if model == "enum" else "budget"
             sen = "0" if model == "enum" else "sentence"
             okc = cnd["k"] == "MethodCall" and cnd["method"] == "is_empty" and field_path(cnd["recv"]) == ("self", bud)
-            th, el = hir.last_expr(links[0][1]), hir.last_expr(els)
             okt = th["k"] == "Call" and hir.callee_name(th) == "Ok" and field_path(th["args"][0]) == ("self", sen)
             oke = el["k"] == "Call" and hir.callee_name(el) == "Err" and field_path(el["args"][0]) == ("self",)
             ok = okc and okt and oke
